@@ -15,7 +15,7 @@ try:
         if s.count(old) != 1:
             print("pattern count", s.count(old)); sys.exit(3)
         open(p, "w").write(s.replace(old, new))
-    env = dict(os.environ, OVNI_REPO=dst)
+    env = dict(os.environ, OVNI_REPO=dst, VERIF_EVIDENCE_DIR=os.path.join(dst, "_evidence"))
     r = subprocess.run(["/verif/bin/check", chk, "--tier", tier], env=env, capture_output=True, text=True)
     lines = r.stdout.strip().splitlines()
     print("\n".join(l[:400] for l in lines if "violation" in l.lower() or "evaluations" in l or "ERROR" in l or "FAILED" in l))
